@@ -223,7 +223,7 @@ class Machine(object):
       elif pre == "list":
         h.pre = D.S.tolist()
       elif pre == "store":
-        h.store = world.PointStore(D.S)
+        h.store = world.PointStore(D.S, mixed=bool(D.desc.get("int_rows")))
         h.pre = h.store
       params["preprocessor"] = h.pre
       ev["pre"] = pre
@@ -249,7 +249,7 @@ class Machine(object):
       elif op["pre"] == "list":
         new_pre = (D.S.tolist(), None)
       elif op["pre"] == "store":
-        st = world.PointStore(D.S)
+        st = world.PointStore(D.S, mixed=bool(D.desc.get("int_rows")))
         new_pre = (st, st)
       else:
         new_pre = (None, None)
